@@ -44,9 +44,15 @@ BushyTrees == {Bushy(2), Bushy(3),
                [anyOf |-> <<Leaf(1), [anyOf |-> <<Leaf(2), [anyOf |-> <<Leaf(3), [not |-> Leaf(4)]>>]>>], [oneOf |-> <<Leaf(5), Leaf(6)>>]>>,
                 properties |-> [a |-> [items |-> Leaf(7)], b |-> [prefixItems |-> <<Leaf(8), [contains |-> Leaf(9)]>>]]],
                [defs |-> [a |-> [defs |-> [x |-> Leaf(1), y |-> Leaf(2)]], b |-> [defs |-> [z |-> [not |-> Leaf(3)]]], c |-> Leaf(4)]]}
+\* trees whose nodes declare anchors: a clone repeats them, and a parent holding the original and the clone
+\* (one resource, the same anchor twice) still resolves
+AnchorTrees == {[anchor |-> "tag"] @@ Leaf(1), [properties |-> [a |-> [anchor |-> "tag", minLength |-> 1]]],
+                [allOf |-> <<[dynamicAnchor |-> "n"] @@ Leaf(1), [anchor |-> "m"] @@ Leaf(2)>>],
+                [defs |-> [x |-> [anchor |-> "tag", not |-> [dynamicAnchor |-> "tag"] @@ Leaf(3)]]],
+                [items |-> [anchor |-> "a", items |-> [anchor |-> "b"] @@ Leaf(1)]]}
 D3 == {OneUnder(k1, OneUnder(k2, OneUnder(k3, Leaf(1)))) : k1 \in {"items", "allOf", "properties", "not"}, k2 \in AllKW, k3 \in {"if", "oneOf", "depSchemas", "defs"}}
 D3all == {OneUnder(k1, OneUnder(k2, OneUnder(k3, Leaf(1)))) : k1 \in AllKW, k2 \in AllKW, k3 \in {"if", "oneOf", "depSchemas", "defs", "items", "patternProperties"}}
-Trees == IF K >= 3 THEN UNION {D1, D2, Wide, Empties, TrueKids, BushyTrees, D3, D3all} ELSE IF K >= 2 THEN UNION {D1, D2, Wide, Empties, TrueKids, BushyTrees, D3} ELSE UNION {D1, D2, Wide, Empties, TrueKids, BushyTrees}
+Trees == IF K >= 3 THEN UNION {D1, D2, Wide, Empties, TrueKids, BushyTrees, AnchorTrees, D3, D3all} ELSE IF K >= 2 THEN UNION {D1, D2, Wide, Empties, TrueKids, BushyTrees, AnchorTrees, D3} ELSE UNION {D1, D2, Wide, Empties, TrueKids, BushyTrees, AnchorTrees}
 
 Init == cs \in Trees /\ phase = "new"
 Next == phase = "new" /\ phase' = "done" /\ cs' = cs
